@@ -77,9 +77,15 @@ static void client (void *arg) {
 	for (ip = 0;; ip++) {
 		struct op *o;
 		rt_point ("c0");
+		if (S.nwrec[t]) {
+			/* the wait that owned this on-stack record has returned: nobody may touch it any more (C13) */
+			rt_dead_clear (t);
+			rt_dead_mark ((char *) S.nwrec[t] - offsetof (struct nsync_waiter_s, waiting), sizeof (struct nsync_waiter_s), t, "nsync_wait_n record");
+		}
 		S.nwrec[t] = NULL;
 		if (ip >= S.nops[t]) break;
 		o = &S.prog[t][ip];
+		if (!strcmp (o->name, "wait")) rt_dead_clear (t);      /* a new wait may reuse the same stack bytes */
 		if (S.kind == K_COUNTER) {
 			if (!strcmp (o->name, "add")) {
 				uint32_t r;
